@@ -266,7 +266,11 @@ fn check(src: &str, ctxs: &[(String, HCtx)], st: &mut Stats) {
         }
         // sources without an assignment operator: the shared-context family and the mutable family are
         // views of the same evaluator too
-        if !src.split(' ').any(|t| t.ends_with('=') && t != "==" && t != "!=" && t != "<=" && t != ">=") && canon(&u_ctx) != canon(&u_mut) {
+        let has_assignment = match crate::refmodel::lexer::lex(src) {
+            Ok(ts) => ts.iter().any(|t| matches!(t, crate::refmodel::lexer::LTok::Op(o) if o.ends_with('=') && !["==", "!=", "<=", ">="].contains(o))),
+            Err(_) => true,
+        };
+        if !has_assignment && canon(&u_ctx) != canon(&u_mut) {
             st.violation(viol(
                 "shared-and-mutable-families-differ",
                 src,
@@ -465,6 +469,24 @@ pub fn run(cfg: &Cfg) -> Report {
         ext(&mut cur, &alpha, max, true, &mut |seq| {
             let src = seq.join(" ");
             check(&src, &ctxs, &mut st);
+            // the same tokens without spaces where the reference lexer still reads the same tokens
+            if seq.len() <= 4 {
+                let mut compact = String::new();
+                for (i, t) in seq.iter().enumerate() {
+                    let wordy = |x: &str| x.chars().next().map(|c| c.is_alphanumeric() || c == '"').unwrap_or(false);
+                    if i > 0 && wordy(seq[i - 1]) && wordy(t) {
+                        compact.push(' ');
+                    }
+                    compact.push_str(t);
+                }
+                if compact != src {
+                    if let (Ok(a), Ok(b)) = (crate::refmodel::lexer::lex(&compact), crate::refmodel::lexer::lex(&src)) {
+                        if crate::refmodel::lexer::same_tokens(&a, &b) {
+                            check(&compact, &ctxs, &mut st);
+                        }
+                    }
+                }
+            }
             st.count("sources");
             st.states += 1;
             if seq.len() >= 2 {
